@@ -146,6 +146,45 @@ theorem insert_panic_late (hf : ClampFits) (q : DelayQ) (now t val : Nat)
   generalize Gen.serverTimerClampSecs = S at ht h2
   omega
 
+/-- the wheel clock is not ahead of the caller's: an insert at `now` is never moved to the wheel clock -/
+theorem max_ceilMs_eq {we now t : Nat} (h : we * nsPerMs ≤ now) : max (ceilMs (now + t)) we = ceilMs (now + t) := by
+  apply Nat.max_eq_left
+  unfold ceilMs nsPerMs at *
+  omega
+
+/-- **What the table knows about the armed timer of a tracked request** (`en`: the table entry, `whenMs`:
+the tick of its timer in the queue, `ex`: the execution it guards):
+* the timer is due at exactly `en.dueAt`, which the queue rounds up to the millisecond;
+* `dueAt + remainder` — when the timer is due plus what has not been armed yet — is the deadline, exactly:
+  not before it (`lo`: never early), and not after it unless the request was read when its deadline had
+  already passed (`hi`: not late; `max deadline now` because the clock only moves on). -/
+structure TimerOk (now : Nat) (en : SEntry) (whenMs : Nat) (ex : Exec) : Prop where
+  tick : whenMs = ceilMs en.dueAt
+  lo : ex.deadline ≤ en.dueAt + en.remainder
+  hi : en.dueAt + en.remainder ≤ max ex.deadline now
+  id : ex.id = en.id
+
+theorem TimerOk.mono {now now' : Nat} {en : SEntry} {w : Nat} {ex : Exec} (h : TimerOk now en w ex)
+    (hle : now ≤ now') : TimerOk now' en w ex :=
+  ⟨h.tick, h.lo, Nat.le_trans h.hi (by omega), h.id⟩
+
+theorem TimerOk.congr {now : Nat} {en : SEntry} {w : Nat} {ex ex' : Exec} (h : TimerOk now en w ex)
+    (hd : ex'.deadline = ex.deadline) (hi : ex'.id = ex.id) : TimerOk now en w ex' :=
+  ⟨h.tick, hd ▸ h.lo, hd ▸ h.hi, hi ▸ h.id⟩
+
+/-- the tick of the timer together with the remainder reaches the deadline -/
+theorem TimerOk.reach {now : Nat} {en : SEntry} {w : Nat} {ex : Exec} (h : TimerOk now en w ex) :
+    ex.deadline ≤ w * nsPerMs + en.remainder := by
+  have := ceilMs_ge' en.dueAt
+  rw [← h.tick] at this
+  have := h.lo
+  omega
+
+/-- the tick is less than a millisecond after the exact due time -/
+theorem TimerOk.tick_lt {now : Nat} {en : SEntry} {w : Nat} {ex : Exec} (h : TimerOk now en w ex) :
+    en.dueAt ≤ w * nsPerMs ∧ w * nsPerMs < en.dueAt + nsPerMs := by
+  rw [h.tick]; unfold ceilMs nsPerMs; omega
+
 structure TInv (now : Nat) (s : St) : Prop where
   wf : DelayQ.KeysOk s.timers
   sound : DelayQ.Sound s.timers now
@@ -154,29 +193,31 @@ structure TInv (now : Nat) (s : St) : Prop where
   bwd : ∀ c ∈ s.timers.cores, ∃ en ∈ s.inflight, en.timerKey = c.1 ∧ en.id = c.2.1
   ridLt : ∀ en ∈ s.inflight, en.rid < s.execs.length
   execRid : ∀ ex ∈ s.execs, ex.rid < s.execs.length
-  /-- the timer of a tracked request together with what is still to be armed (`deadline_remainder`)
-  reaches the deadline: the request expires (timer fired with nothing left to arm) no earlier than it -/
+  /-- the tick of the armed timer of a tracked request is its exact due time, rounded up to the ms -/
+  tk : ∀ en ∈ s.inflight, ∀ c ∈ s.timers.cores, c.1 = en.timerKey → c.2.2 = ceilMs en.dueAt
+  /-- the timer of a tracked request is due exactly `remainder` before the deadline (`TimerOk`) -/
   dl : ∀ en ∈ s.inflight, ∀ c ∈ s.timers.cores, c.1 = en.timerKey → ∀ ex ∈ s.execs, ex.rid = en.rid →
-    ex.deadline ≤ c.2.2 * nsPerMs + en.remainder ∧ ex.id = en.id
+    TimerOk now en c.2.2 ex
 
 theorem TInv.mono {now now' : Nat} {s : St} (h : TInv now s) (hle : now ≤ now') : TInv now' s :=
-  { h with sound := h.sound.mono hle }
+  { h with sound := h.sound.mono hle,
+           dl := fun en hen c hc hk ex hex hr => (h.dl en hen c hc hk ex hex hr).mono hle }
 
 /-- `TInv` only looks at `inflight`, `timers`, `execs` (up to `ExecsSim`). -/
 theorem TInv.of_sim {now : Nat} {s s' : St} (h : TInv now s) (hi : s'.inflight = s.inflight) (ht : s'.timers = s.timers)
     (he : ExecsSim s.execs s'.execs) : TInv now s' := by
-  refine ⟨ht ▸ h.wf, ht ▸ h.sound, hi ▸ h.ids, ?_, ?_, ?_, ?_, ?_⟩
+  refine ⟨ht ▸ h.wf, ht ▸ h.sound, hi ▸ h.ids, ?_, ?_, ?_, ?_, ?_, ?_⟩
   · rw [hi, ht]; exact h.fwd
   · rw [hi, ht]; exact h.bwd
   · rw [hi, he.1]; exact h.ridLt
   · intro ex' hex'
     obtain ⟨ex, hex, hr, _, _⟩ := he.2 ex' hex'
     rw [he.1, hr]; exact h.execRid ex hex
+  · rw [hi, ht]; exact h.tk
   · rw [hi, ht]
     intro en hen c hc hk ex' hex' hr'
     obtain ⟨ex, hex, hr, hid, hd⟩ := he.2 ex' hex'
-    have := h.dl en hen c hc hk ex hex (hr ▸ hr')
-    rw [hid, hd]; exact this
+    exact (h.dl en hen c hc hk ex hex (hr ▸ hr')).congr hd hid
 
 theorem ExecsSim.refl (l : List Exec) : ExecsSim l l := ⟨rfl, fun ex h => ⟨ex, h, rfl, rfl, rfl⟩⟩
 
@@ -205,7 +246,7 @@ theorem TInv.removeCore {now : Nat} {s s' : St} (h : TInv now s) {en : SEntry} (
     (hi : s'.inflight = s.inflight.filter (·.id != en.id)) (he : ExecsSim s.execs s'.execs) : TInv now s' := by
   have hmem : ∀ e, e ∈ s'.inflight ↔ e ∈ s.inflight ∧ e.id ≠ en.id := by
     intro e; rw [hi]; simp
-  refine ⟨hwf, hsound, ?_, ?_, ?_, ?_, ?_, ?_⟩
+  refine ⟨hwf, hsound, ?_, ?_, ?_, ?_, ?_, ?_, ?_⟩
   · rw [hi]
     exact List.Nodup.sublist (List.Sublist.map _ List.filter_sublist) h.ids
   · intro e he'
@@ -228,10 +269,11 @@ theorem TInv.removeCore {now : Nat} {s s' : St} (h : TInv now s) {en : SEntry} (
   · intro ex' hex'
     obtain ⟨ex, hex, hr, _, _⟩ := he.2 ex' hex'
     rw [he.1, hr]; exact h.execRid ex hex
+  · intro e he' c hcm hk
+    exact h.tk e ((hmem e).mp he').1 c ((hc c).mp hcm).1 hk
   · intro e he' c hcm hk ex' hex' hr'
     obtain ⟨ex, hex, hr, hid, hd⟩ := he.2 ex' hex'
-    have := h.dl e ((hmem e).mp he').1 c ((hc c).mp hcm).1 hk ex hex (hr ▸ hr')
-    rw [hid, hd]; exact this
+    exact (h.dl e ((hmem e).mp he').1 c ((hc c).mp hcm).1 hk ex hex (hr ▸ hr')).congr hd hid
 
 /-- the timer of a tracked entry is in the queue, so `removeTimer` cannot fail -/
 theorem TInv.remove_some {now : Nat} {s : St} (h : TInv now s) {en : SEntry} (hen : en ∈ s.inflight) :
@@ -372,7 +414,7 @@ current clock (which the fired one had reached) with a part of what was left of 
 deadline; the entry pays that part out of its remainder. -/
 theorem TInv.rearm {now : Nat} {s : St} (h : TInv now s) {q : DelayQ} {e : DqEntry} {en : SEntry} {s2 : St}
     (hp : s.timers.pollExpired now = (q, .expired e)) (hen : en ∈ s.inflight) (hk : en.timerKey = e.key)
-    (hv : en.id = e.val) (hr : Server.rearm { s with timers := q } now (now - e.whenMs * nsPerMs) en = some s2) :
+    (hv : en.id = e.val) (h0 : restOf now en ≠ 0) (hr : Server.rearm { s with timers := q } now en = some s2) :
     TInv now s2 := by
   have hwfq := DelayQ.pollExpired_WF hp h.wf
   have hsq := DelayQ.pollExpired_Sound hp h.sound
@@ -380,7 +422,6 @@ theorem TInv.rearm {now : Nat} {s : St} (h : TInv now s) {q : DelayQ} {e : DqEnt
   have hne := DelayQ.pollExpired_not_early hp h.sound
   obtain ⟨q', key, w, hi, rfl⟩ := rearm_some hr
   simp only at hi
-  generalize hlate : now - e.whenMs * nsPerMs = late at hi ⊢
   obtain ⟨hkey, hnk, hcs'⟩ := DelayQ.insert_ok hi
   have hwf := DelayQ.insert_WF hi hwfq
   have hs := DelayQ.insert_Sound hi hsq
@@ -389,14 +430,15 @@ theorem TInv.rearm {now : Nat} {s : St} (h : TInv now s) {q : DelayQ} {e : DqEnt
   have hexecs : (if w = true then wakeServer { s with timers := q } else { s with timers := q }).execs = s.execs := by
     cases w <;> simp
   -- membership in the re-keyed table
-  have hmem : ∀ x', x' ∈ s.inflight.map (rearmUpd en.id key late) ↔ ∃ x ∈ s.inflight, x' = rearmUpd en.id key late x := by
+  have hmem : ∀ x', x' ∈ s.inflight.map (rearmUpd en.id key now) ↔ ∃ x ∈ s.inflight, x' = rearmUpd en.id key now x := by
     intro x'; simp only [List.mem_map]; constructor
     · rintro ⟨x, hx, rfl⟩; exact ⟨x, hx, rfl⟩
     · rintro ⟨x, hx, rfl⟩; exact ⟨x, hx, rfl⟩
-  have hupd_en : rearmUpd en.id key late en =
-      { en with timerKey := key, remainder := (en.remainder - late) - clampTimeout (en.remainder - late) } := by
+  have hupd_en : rearmUpd en.id key now en =
+      { en with timerKey := key, dueAt := now + clampTimeout (restOf now en),
+                remainder := restOf now en - clampTimeout (restOf now en) } := by
     unfold rearmUpd; rw [if_pos (by simp)]
-  have hother : ∀ x ∈ s.inflight, x ≠ en → rearmUpd en.id key late x = x := by
+  have hother : ∀ x ∈ s.inflight, x ≠ en → rearmUpd en.id key now x = x := by
     intro x hx hxe
     exact rearmUpd_ne (fun hid => hxe (eq_of_map_nodup (·.id) h.ids hx hen hid))
   -- the old core of another entry survives the pop and the insert
@@ -408,9 +450,9 @@ theorem TInv.rearm {now : Nat} {s : St} (h : TInv now s) {q : DelayQ} {e : DqEnt
     obtain ⟨cx, hcx, hkx, hvx⟩ := h.fwd x hx
     have hcc' : c = cx := DelayQ.cores_key_unique h.wf hc hcx (by rw [hck, hkx])
     exact eq_of_map_nodup (·.id) h.ids hx hen (by rw [← hvx, ← hcc', hcc, hv0])
-  refine ⟨hwf, hs, ?_, ?_, ?_, ?_, ?_, ?_⟩
-  · show ((s.inflight.map (rearmUpd en.id key late)).map (·.id)).Nodup
-    have : (s.inflight.map (rearmUpd en.id key late)).map (·.id) = s.inflight.map (·.id) := by
+  refine ⟨hwf, hs, ?_, ?_, ?_, ?_, ?_, ?_, ?_⟩
+  · show ((s.inflight.map (rearmUpd en.id key now)).map (·.id)).Nodup
+    have : (s.inflight.map (rearmUpd en.id key now)).map (·.id) = s.inflight.map (·.id) := by
       rw [List.map_map]; apply List.map_congr_left; intro x _; simp
     rw [this]; exact h.ids
   · intro x' hx'
@@ -429,11 +471,31 @@ theorem TInv.rearm {now : Nat} {s : St} (h : TInv now s) {q : DelayQ} {e : DqEnt
       have hxe : x ≠ en := fun hxe => hcne (by rw [← a, hxe, hk])
       exact ⟨x, (hmem x).mpr ⟨x, hx, (hother x hx hxe).symm⟩, a, b⟩
     · subst hc
-      exact ⟨rearmUpd en.id key late en, (hmem _).mpr ⟨en, hen, rfl⟩, by rw [hupd_en], by rw [hupd_en]⟩
+      exact ⟨rearmUpd en.id key now en, (hmem _).mpr ⟨en, hen, rfl⟩, by rw [hupd_en], by rw [hupd_en]⟩
   · intro x' hx'
     obtain ⟨x, hx, rfl⟩ := (hmem x').mp hx'
     rw [hexecs, rearmUpd_rid]; exact h.ridLt x hx
   · rw [hexecs]; exact h.execRid
+  · intro x' hx' c hc hck
+    obtain ⟨x, hx, rfl⟩ := (hmem x').mp hx'
+    by_cases hxe : x = en
+    · subst hxe
+      rw [hupd_en] at hck ⊢
+      simp only at hck ⊢
+      have hcnew : c = (key, x.id, max (ceilMs (now + clampTimeout (restOf now x))) q.wheelElapsed) := by
+        rcases (hcs' c).mp hc with hc | hc
+        · exact absurd hck (hfresh c hc)
+        · exact hc
+      subst hcnew
+      exact max_ceilMs_eq hsq.el
+    · rw [hother x hx hxe] at hck ⊢
+      have hcold : c ∈ s.timers.cores := by
+        rcases (hcs' c).mp hc with hc | hc
+        · exact ((hcs c).mp hc).1
+        · subst hc
+          obtain ⟨c0, hc0, hk0, _⟩ := h.fwd x hx
+          exact absurd (hk0.trans hck.symm) (hfresh c0 (hkeep x hx hxe c0 hc0 hk0))
+      exact h.tk x hx c hcold hck
   · rw [hexecs]
     intro x' hx' c hc hck ex hex hrid
     obtain ⟨x, hx, rfl⟩ := (hmem x').mp hx'
@@ -441,22 +503,29 @@ theorem TInv.rearm {now : Nat} {s : St} (h : TInv now s) {q : DelayQ} {e : DqEnt
     · subst hxe
       rw [hupd_en] at hck hrid ⊢
       simp only at hck hrid ⊢
-      have hcnew : c = (key, x.id, max (ceilMs (now + clampTimeout (x.remainder - late))) q.wheelElapsed) := by
+      have hcnew : c = (key, x.id, max (ceilMs (now + clampTimeout (restOf now x))) q.wheelElapsed) := by
         rcases (hcs' c).mp hc with hc | hc
         · exact absurd hck (hfresh c hc)
         · exact hc
       subst hcnew
       have hold := h.dl x hen _ hcore hk.symm ex hex hrid
-      refine ⟨?_, hold.2⟩
-      have hold1 : ex.deadline ≤ e.whenMs * nsPerMs + x.remainder := hold.1
-      show ex.deadline ≤ max (ceilMs (now + clampTimeout (x.remainder - late))) q.wheelElapsed * nsPerMs +
-        ((x.remainder - late) - clampTimeout (x.remainder - late))
-      have h1 := ceilMs_ge' (now + clampTimeout (x.remainder - late))
-      have h2 : ceilMs (now + clampTimeout (x.remainder - late)) * nsPerMs ≤
-          max (ceilMs (now + clampTimeout (x.remainder - late))) q.wheelElapsed * nsPerMs :=
-        Nat.mul_le_mul_right _ (Nat.le_max_left _ _)
-      have h3 := clampTimeout_le_self (x.remainder - late)
-      omega
+      have hw : (DelayQ.core e).2.2 = e.whenMs := rfl
+      -- the fired timer was due no later than its tick, which the clock has reached
+      have hdue : x.dueAt ≤ now := by
+        have := hold.tick_lt.1
+        rw [hw] at this
+        exact Nat.le_trans this hne
+      have h3 := clampTimeout_le_self (restOf now x)
+      have hrest : restOf now x = x.remainder - (now - x.dueAt) := rfl
+      refine ⟨?_, ?_, ?_, hold.id⟩
+      · show max (ceilMs (now + clampTimeout (restOf now x))) q.wheelElapsed = ceilMs (now + clampTimeout (restOf now x))
+        exact max_ceilMs_eq hsq.el
+      · have := hold.lo
+        show ex.deadline ≤ now + clampTimeout (restOf now x) + (restOf now x - clampTimeout (restOf now x))
+        omega
+      · have := hold.hi
+        show now + clampTimeout (restOf now x) + (restOf now x - clampTimeout (restOf now x)) ≤ max ex.deadline now
+        omega
     · rw [hother x hx hxe] at hck hrid ⊢
       have hcold : c ∈ s.timers.cores := by
         rcases (hcs' c).mp hc with hc | hc
@@ -478,6 +547,7 @@ theorem TInv.expireStep {now : Nat} {s : St} (h : TInv now s) : TInv now (Server
     have hcs := DelayQ.pollExpired_other hp h.wf hr
     exact ⟨hwf, hs, h.ids, fun en hen => by obtain ⟨c, hc, a, b⟩ := h.fwd en hen; exact ⟨c, (hcs c).mpr hc, a, b⟩,
       fun c hc => h.bwd c ((hcs c).mp hc), h.ridLt, h.execRid,
+      fun en hen c hc => h.tk en hen c ((hcs c).mp hc),
       fun en hen c hc => h.dl en hen c ((hcs c).mp hc)⟩
   cases hs with
   | idleNone q hp => exact idle q _ hp (by intro e h; cases h)
@@ -497,7 +567,7 @@ theorem TInv.expireStep {now : Nat} {s : St} (h : TInv now s) : TInv now (Server
   | rearmed q e en' s2 hp hf h0 hr =>
     obtain ⟨en, hen, hk, hv, huniq, _⟩ := h.popped hp
     have := huniq en' hf; subst this
-    exact h.rearm hp hen hk hv hr
+    exact h.rearm hp hen hk hv h0 hr
   | panicked q e en' hp hf h0 hr => exact h.of_sim rfl rfl (ExecsSim.refl _)
 
 theorem TInv.expire {now : Nat} {s : St} (h : TInv now s) : TInv now (pollExpired s now).1 :=
@@ -529,9 +599,12 @@ theorem TInv.expireStep_ab {now : Nat} {s : St} (h : TInv now s) :
     obtain ⟨hcore, _⟩ := DelayQ.pollExpired_expired hp h.wf
     refine ⟨Or.inr ⟨en'.rid, abortExec_ab _ en'.rid, fun ex hex hr => ?_⟩, fun h => by cases h⟩
     have hne := DelayQ.pollExpired_not_early hp h.sound
-    have := (h.dl en' hen _ hcore hk.symm ex hex hr).1
+    have hold := h.dl en' hen _ hcore hk.symm ex hex hr
     have hw : (DelayQ.core e).2.2 = e.whenMs := rfl
-    rw [hw] at this
+    have hdue := hold.tick_lt.1
+    rw [hw] at hdue
+    have hlo := hold.lo
+    have hrest : restOf now en' = en'.remainder - (now - en'.dueAt) := rfl
     omega
   | rearmed q e en' s2 hp hf h0 hr =>
     have := (rearm_frame hr).execs
@@ -599,7 +672,7 @@ theorem TInv.start {now : Nat} {s : St} (h : TInv now s) (id d : Nat) (tr : Trac
       have hs := DelayQ.insert_Sound hi h.sound
       have hfresh : ∀ c ∈ s.timers.cores, c.1 ≠ key := fun c hc hck => by
         have := DelayQ.cores_key_lt h.wf hc; omega
-      refine ⟨hwf, hs, ?_, ?_, ?_, ?_, ?_, ?_⟩
+      refine ⟨hwf, hs, ?_, ?_, ?_, ?_, ?_, ?_, ?_⟩
       · simp only [List.map_append, List.map_cons, List.map_nil]
         rw [List.nodup_append]
         refine ⟨h.ids, by simp, ?_⟩
@@ -630,6 +703,23 @@ theorem TInv.start {now : Nat} {s : St} (h : TInv now s) (id d : Nat) (tr : Trac
         rcases List.mem_append.mp hex with hex | hex
         · have := h.execRid ex hex; omega
         · simp only [List.mem_singleton] at hex; subst hex; simp
+      · intro en hen c hc hk
+        rcases List.mem_append.mp hen with hen | hen
+        · have hcold : c ∈ s.timers.cores := by
+            rcases (hcs c).mp hc with hc | hc
+            · exact hc
+            · subst hc
+              obtain ⟨c0, hc0, hk0, _⟩ := h.fwd en hen
+              exact absurd (hk0.trans hk.symm) (hfresh c0 hc0)
+          exact h.tk en hen c hcold hk
+        · simp only [List.mem_singleton] at hen; subst hen
+          simp only at hk ⊢
+          have hcnew : c = (key, id, max (ceilMs (now + clampTimeout (d - now))) s.timers.wheelElapsed) := by
+            rcases (hcs c).mp hc with hc | hc
+            · exact absurd hk (hfresh c hc)
+            · exact hc
+          subst hcnew
+          exact max_ceilMs_eq h.sound.el
       · intro en hen c hc hk ex hex hr
         rcases List.mem_append.mp hen with hen | hen
         · -- an old entry: its timer is old, its execution is old
@@ -656,16 +746,16 @@ theorem TInv.start {now : Nat} {s : St} (h : TInv now s) (id d : Nat) (tr : Trac
             · have := h.execRid ex hex; omega
             · simp only [List.mem_singleton] at hex; subst hex; exact ⟨rfl, rfl, rfl⟩
           subst hcnew
-          rw [hexnew.1, hexnew.2.1]
-          refine ⟨?_, rfl⟩
-          show d ≤ max (ceilMs (now + clampTimeout (d - now))) s.timers.wheelElapsed * nsPerMs +
-            ((d - now) - clampTimeout (d - now))
-          have h1 := ceilMs_ge (now + clampTimeout (d - now))
-          have h2 : ceilMs (now + clampTimeout (d - now)) * nsPerMs ≤
-              max (ceilMs (now + clampTimeout (d - now))) s.timers.wheelElapsed * nsPerMs :=
-            Nat.mul_le_mul_right _ (Nat.le_max_left _ _)
           have h3 := clampTimeout_le_self (d - now)
-          omega
+          refine ⟨?_, ?_, ?_, hexnew.2.1⟩
+          · show max (ceilMs (now + clampTimeout (d - now))) s.timers.wheelElapsed = ceilMs (now + clampTimeout (d - now))
+            exact max_ceilMs_eq h.sound.el
+          · rw [hexnew.1]
+            show d ≤ now + clampTimeout (d - now) + ((d - now) - clampTimeout (d - now))
+            omega
+          · rw [hexnew.1]
+            show now + clampTimeout (d - now) + ((d - now) - clampTimeout (d - now)) ≤ max d now
+            omega
 
 theorem foldl_abort_sim (es : List SEntry) (s : St) :
     ExecsSim s.execs (es.foldl (fun s e => abortExec s e.rid) s).execs := by
@@ -687,7 +777,7 @@ theorem TInv.drop {now : Nat} {s : St} (h : TInv now s) : TInv now (dropServer s
         { List.foldl (fun s e => abortExec s e.rid) { s with dropped := true, woken := false } s.inflight with rqWaiters := [] }
         (List.foldl (fun s e => abortExec s e.rid) { s with dropped := true, woken := false } s.inflight).rqWaiters).execs :=
       ExecsSim.trans (foldl_abort_sim s.inflight { s with dropped := true, woken := false }) (foldl_wake_sim _ _)
-    refine ⟨DelayQ.WF_empty, DelayQ.Sound_empty now, by simp, by simp, by simp [DelayQ.cores, DelayQ.items], by simp, ?_, by simp⟩
+    refine ⟨DelayQ.WF_empty, DelayQ.Sound_empty now, by simp, by simp, by simp [DelayQ.cores, DelayQ.items], by simp, ?_, by simp, by simp⟩
     intro ex' hex'
     obtain ⟨ex, hex, hr, _, _⟩ := hsim.2 ex' hex'
     rw [hsim.1, hr]; exact h.execRid ex hex
@@ -932,7 +1022,7 @@ theorem SInv.step {w : Bool} {now : Nat} {s s' : St} (h : SInv w now s) (ht : TI
 theorem TInv.timerWaker {now : Nat} {s : St} (h : TInv now s) (b : Bool) :
     TInv now { s with timers := { s.timers with waker := b } } :=
   ⟨⟨h.wf.nodup, h.wf.lt⟩, ⟨h.sound.lvl, h.sound.blk, h.sound.top, h.sound.exp, h.sound.el, h.sound.wn⟩,
-    h.ids, h.fwd, h.bwd, h.ridLt, h.execRid, h.dl⟩
+    h.ids, h.fwd, h.bwd, h.ridLt, h.execRid, h.tk, h.dl⟩
 
 theorem sinv_closed (w : Bool) (now : Nat) : PrimClosed now (SInv w now) where
   inert := fun s s' hi h =>
@@ -964,7 +1054,7 @@ theorem sinv_closed (w : Bool) (now : Nat) : PrimClosed now (SInv w now) where
       intro ex hex hr
       obtain ⟨hen, hid⟩ := findEntry_some hf
       obtain ⟨c, hc, hk, _⟩ := h1.t.fwd en hen
-      have := (h1.t.dl en hen c hc hk ex hex (Option.some.inj hr).symm).2
+      have := (h1.t.dl en hen c hc hk ex hex (Option.some.inj hr).symm).id
       rw [this, hid]
       exact Or.inr (Or.inl hseen)
   expire := fun s h => by
@@ -1143,8 +1233,8 @@ theorem dropServer_aborts_all (s : St) (hlive : (s.dropped || s.poisoned) = fals
 remainder) -/
 def _root_.TarpcModel.Server.SEntry.ir (e : SEntry) : Nat × Nat := (e.id, e.rid)
 
-theorem map_ir_rearmUpd (l : List SEntry) (id key late : Nat) :
-    (l.map (rearmUpd id key late)).map SEntry.ir = l.map SEntry.ir := by
+theorem map_ir_rearmUpd (l : List SEntry) (id key now : Nat) :
+    (l.map (rearmUpd id key now)).map SEntry.ir = l.map SEntry.ir := by
   rw [List.map_map]; apply List.map_congr_left; intro x _
   simp [SEntry.ir]
 
@@ -1264,7 +1354,7 @@ theorem pollExpired_touches (s : St) (now : Nat) : ExpTouch s (pollExpired s now
 
 theorem sinv_init (w : Bool) (limit : Option Nat) (respCap tcap : Nat) (coupled : Bool) :
     SInv w 0 (init 0 limit respCap tcap coupled) := by
-  refine ⟨⟨DelayQ.WF_empty, DelayQ.Sound_empty 0, ?_, ?_, ?_, ?_, ?_, ?_⟩, ?_, ?_⟩
+  refine ⟨⟨DelayQ.WF_empty, DelayQ.Sound_empty 0, ?_, ?_, ?_, ?_, ?_, ?_, ?_⟩, ?_, ?_⟩
   all_goals simp [init, AbortWhy, OnlyInsertPanic, DelayQ.cores, DelayQ.items]
 
 /-- the virtual time an op advances the clock by -/
